@@ -256,7 +256,7 @@ func c05ChecksumInputs(c *Check, a *Anchors) {
 	}
 	_ = sources
 	item := varOf(info, loop.Value)
-	gotName, gotContent := false, false
+	gotName, gotContent, baseOnly := false, false, false
 	for _, s := range loop.Body.List {
 		inspectBody(s, func(nd ast.Node) bool {
 			call, ok := nd.(*ast.CallExpr)
@@ -281,9 +281,44 @@ func c05ChecksumInputs(c *Check, a *Anchors) {
 					src += exprStr(arg) + " "
 				}
 			}
-			if item != nil && strings.Contains(src, "Base(") && mentionsAny(info, call, item) {
-				gotName = true
+			// the name: an argument derived from the loop item through string expressions (not the opened file)
+			if item != nil {
+				for _, arg := range call.Args {
+					if varOf(info, arg) == h {
+						continue
+					}
+					isFile := false
+					if v := varOf(info, arg); v != nil {
+						for _, d := range defsOf(info, loop.Body, v) {
+							if oc, ok := ast.Unparen(d).(*ast.CallExpr); ok && isFunc(callee(info, oc), "os", "", "Open") {
+								isFile = true
+							}
+						}
+					}
+					if !isFile && mentionsVia(info, loop.Body, arg, item, 3) {
+						gotName = true
+						// does the derivation throw the directory away
+						var walk func(e ast.Node, depth int)
+						walk = func(e ast.Node, depth int) {
+							ast.Inspect(e, func(m ast.Node) bool {
+								if bc, ok := m.(*ast.CallExpr); ok && isFunc(callee(info, bc), "path/filepath", "", "Base") {
+									baseOnly = true
+								}
+								if id, ok := m.(*ast.Ident); ok && depth < 3 {
+									if v, ok := info.Uses[id].(*types.Var); ok && v != item {
+										for _, d := range defsOf(info, loop.Body, v) {
+											walk(d, depth+1)
+										}
+									}
+								}
+								return true
+							})
+						}
+						walk(arg, 0)
+					}
+				}
 			}
+			_ = src
 			// content: an argument that is a variable assigned from os.Open(<item>)
 			for _, arg := range call.Args {
 				if v := varOf(info, arg); v != nil && v != h {
@@ -304,7 +339,8 @@ func c05ChecksumInputs(c *Check, a *Anchors) {
 			return true
 		})
 	}
-	c.Decide(gotName, "checksum-inputs", "file-name-hashed@"+name, loop.Pos(), "the base name of every source is fed to the hasher", "the checksum no longer includes the file name of each source on every iteration: renaming a source file would not trigger a rebuild")
+	c.Decide(!baseOnly, "checksum-inputs", "file-path-hashed@"+name, loop.Pos(), "the hashed name keeps the directory part", "only filepath.Base of each source is hashed: moving a file to another directory matched by the same pattern (a rename) leaves the checksum unchanged")
+	c.Decide(gotName, "checksum-inputs", "file-name-hashed@"+name, loop.Pos(), "the name of every source is fed to the hasher", "the checksum no longer includes the file name of each source on every iteration: renaming a source file would not trigger a rebuild")
 	c.Decide(gotContent, "checksum-inputs", "file-content-hashed@"+name, loop.Pos(), "the content of every opened source is fed to the hasher", "the checksum no longer includes the content of each source on every iteration: editing a source file would not trigger a rebuild")
 	derived := false
 	for _, r := range returnsOf(fb.Body) {
